@@ -70,11 +70,32 @@ import zeroconf._cache as _zc_cache_mod  # noqa: E402
 assert _zc_cache_mod.__file__.endswith('.py'), 'compiled extension in use: ' + _zc_cache_mod.__file__
 
 
+_FIXED_NOW: Optional[float] = None
+
+
 def _vnow_ms() -> float:
     net = _CURRENT_NET
     if net is None:
+        if _FIXED_NOW is not None:
+            return _FIXED_NOW
         raise RuntimeError('simnet clock used outside Net.run')
     return net.loop.now_ms()
+
+
+class fixed_clock:
+    """For direct calls into the library outside any simulated network: the clock stands at `ms`."""
+
+    def __init__(self, ms: float) -> None:
+        self.ms = ms
+
+    def __enter__(self) -> None:
+        global _FIXED_NOW
+        self.prev = _FIXED_NOW
+        _FIXED_NOW = self.ms
+
+    def __exit__(self, *a: Any) -> None:
+        global _FIXED_NOW
+        _FIXED_NOW = self.prev
 
 
 def _patch_clock() -> None:
